@@ -161,7 +161,20 @@ Definition found (w : ws) (k : key) : bool :=
                      Meta[...] member into the identifier - are restored;
    fixmeta = false : a loader that restores the flag only when it is truthy (`if meta := ...`), the
                      literal record of a family of defects (see recompute_truthy_refuted).           *)
-From XV Require Import core.Value model.Hash model.Serial.
+From XV Require Import core.Value model.Hash model.Edits model.Serial.
+
+(* ObjectType.deprecate (core/types.py l.429-441; annotations.py deprecate): the class - which must have exactly one
+   parent, its replacement - takes the type identifier of that parent ("self.identifier = parent.identifier"); its
+   declared arguments are untouched.  k, parent: positions in the class table.  A class is deprecated when its
+   definition is executed, hence after its parent was (a parent that is itself deprecated already carries the
+   identifier of ITS replacement): `deprecate_all` applies the deprecations in that order.                      *)
+Definition deprecate (cs : classes) (k parent : nat) : classes :=
+  match nth_error cs k, nth_error cs parent with
+  | Some c, Some p => upd_nth cs k {| c_tid := c_tid p; c_args := c_args c |}
+  | _, _ => cs
+  end.
+Definition deprecate_all (cs : classes) (steps : list (nat * nat)) : classes :=
+  fold_left (fun cs s => deprecate cs (fst s) (snd s)) steps cs.
 
 Section Recompute.
   Variable H : bytes -> bytes.          (* the hash function: any; SHA-256 in the correspondence run *)
